@@ -57,11 +57,18 @@ macro_rules! digest_set {
             let g2 = s.try_hash_sign(msg, b"", &Ph::SHA256).unwrap();
             assert!(p.verify(msg, &g, b"") && p.hash_verify(msg, &g2, b"", &Ph::SHA256));
         }
-        #[cfg(feature = "dudect")]
-        { let d = $m::dudect_keygen_sign_with_rng(&mut Fixed(5), msg).unwrap(); h.update(&d); }
         let mut out = [0u8; 16];
         h.finalize_xof().read(&mut out);
         println!("DIGEST {} {}", $name, out.iter().map(|b| format!("{:02x}", b)).collect::<String>());
+        // the constant-time test entry point exists only with `dudect`; its output is digested separately so that the
+        // ordinary behaviour above is compared against the DEFAULT configuration in every one of the 28
+        #[cfg(feature = "dudect")]
+        {
+            let d = $m::dudect_keygen_sign_with_rng(&mut Fixed(5), msg).unwrap();
+            let mut hd = sha3::Shake128::default(); hd.update(&d);
+            let mut o2 = [0u8; 16]; hd.finalize_xof().read(&mut o2);
+            println!("DIGESTD {} {}", $name, o2.iter().map(|b| format!("{:02x}", b)).collect::<String>());
+        }
     }};
 }
 
